@@ -187,6 +187,41 @@ Theorem C08_wait_loop_exits_only_when_true :
 Proof. intros k a m n st outer. exact (while_exit_only_when_false k a m (fun o => negb (cond_true o n)) (notif_await n) st outer). Qed.
 Print Assumptions C08_wait_loop_exits_only_when_true.
 
+(** A Flag and its inverse as two waiter lists (FlagList.v - compared on every run with the real Flag driven under a stand-in
+    loop): for EVERY history of subscribe / unsubscribe / set, nobody is parked on a side that currently holds (a waiter is
+    never left waiting while its condition is true); an edge wakes everybody parked on that side, oldest first, and nobody
+    else; a set without an edge wakes nobody; subscribing to a side that holds is answered at once. *)
+From Usim Require FlagList.
+Theorem C08_flag_nobody_parked_on_a_true_side :
+  forall ops, (FlagList.value (FlagList.run ops) = true -> FlagList.wf (FlagList.run ops) = []) /\
+              (FlagList.value (FlagList.run ops) = false -> FlagList.wi (FlagList.run ops) = []).
+Proof. exact FlagList.never_parked_on_a_side_that_holds. Qed.
+Print Assumptions C08_flag_nobody_parked_on_a_true_side.
+
+Theorem C08_flag_rising_edge_wakes_all_waiters :
+  forall ops, FlagList.value (FlagList.run ops) = false ->
+    let s := FlagList.run (ops ++ [FlagList.SetTo true]) in
+    FlagList.scheduled s = FlagList.scheduled (FlagList.run ops) ++ FlagList.wf (FlagList.run ops) /\ FlagList.wf s = [] /\
+    FlagList.wi s = FlagList.wi (FlagList.run ops) /\ FlagList.value s = true.
+Proof. exact FlagList.rising_edge_wakes_all_waiters. Qed.
+Print Assumptions C08_flag_rising_edge_wakes_all_waiters.
+
+Theorem C08_flag_falling_edge_wakes_all_waiters_of_the_inverse :
+  forall ops, FlagList.value (FlagList.run ops) = true ->
+    let s := FlagList.run (ops ++ [FlagList.SetTo false]) in
+    FlagList.scheduled s = FlagList.scheduled (FlagList.run ops) ++ FlagList.wi (FlagList.run ops) /\ FlagList.wi s = [] /\
+    FlagList.wf s = FlagList.wf (FlagList.run ops) /\ FlagList.value s = false.
+Proof. exact FlagList.falling_edge_wakes_all_waiters_of_the_inverse. Qed.
+Print Assumptions C08_flag_falling_edge_wakes_all_waiters_of_the_inverse.
+
+Theorem C08_flag_subscribe_to_a_true_side_is_answered_at_once :
+  forall ops inv w t, FlagList.holds (FlagList.run ops) inv = true ->
+    let s := FlagList.run (ops ++ [FlagList.Sub inv w t]) in
+    FlagList.scheduled s = FlagList.scheduled (FlagList.run ops) ++ [(w, t)] /\ FlagList.wf s = FlagList.wf (FlagList.run ops) /\
+    FlagList.wi s = FlagList.wi (FlagList.run ops).
+Proof. exact FlagList.subscribe_when_true_is_scheduled_at_once. Qed.
+Print Assumptions C08_flag_subscribe_to_a_true_side_is_answered_at_once.
+
 (** (A) the tie to /repo's current source: every function this property's models were transcribed from has, in the
     tree this run is checking, the normalised source it had when the models were validated (hashes regenerated from
     /repo into gen/Generated.v on every run; pins in gen/SourcePins.v).  A change to one of them invalidates the
